@@ -607,14 +607,17 @@ func handleInputStream(s *Session, handler Handler) (err error) {
 			}:
 				verifhook.Yield("serve.handoff", id)
 				<-readerChan.c
+				// Consume the rest of the stream before continuing the loop.
+				_, err = xmlstream.Copy(discard, inner)
+				if err != nil {
+					return err
+				}
+				return nil
 			case <-readerChan.ctx.Done():
+				// The request was canceled before the response could be handed off.
+				// Nobody is waiting for it anymore, so let the handler have it like
+				// any other response that arrives late.
 			}
-			// Consume the rest of the stream before continuing the loop.
-			_, err = xmlstream.Copy(discard, inner)
-			if err != nil {
-				return err
-			}
-			return nil
 		}
 	}
 
